@@ -4,6 +4,7 @@ import (
 	"context"
 	"errors"
 	"fmt"
+	"math"
 	"math/big"
 	"reflect"
 	"strconv"
@@ -69,6 +70,7 @@ const (
 	pkMapIface
 	pkMapInt
 	pkCtxLike // a pointer type that embeds (and so implements) context.Context: an ordinary parameter
+	pkSliceInt8
 	pkCount
 )
 
@@ -80,7 +82,7 @@ type c11ReqCtx struct {
 
 var c11RC = &c11ReqCtx{Context: context.Background(), User: "u1"}
 
-var pkNames = []string{"string", "bool", "int", "int8", "int16", "int32", "int64", "float32", "float64", "interface{}", "*decimal.Big", "time.Time", "[]string", "[]int", "[]interface{}", "map[string]interface{}", "map[string]int", "*c11ReqCtx"}
+var pkNames = []string{"string", "bool", "int", "int8", "int16", "int32", "int64", "float32", "float64", "interface{}", "*decimal.Big", "time.Time", "[]string", "[]int", "[]interface{}", "map[string]interface{}", "map[string]int", "*c11ReqCtx", "[]int8"}
 
 var ifaceType = reflect.TypeOf((*interface{})(nil)).Elem()
 var errType = reflect.TypeOf((*error)(nil)).Elem()
@@ -89,7 +91,7 @@ var ctxType = reflect.TypeOf((*context.Context)(nil)).Elem()
 var pkTypes = []reflect.Type{
 	reflect.TypeOf(""), reflect.TypeOf(true), reflect.TypeOf(int(0)), reflect.TypeOf(int8(0)), reflect.TypeOf(int16(0)), reflect.TypeOf(int32(0)), reflect.TypeOf(int64(0)),
 	reflect.TypeOf(float32(0)), reflect.TypeOf(float64(0)), ifaceType, reflect.TypeOf((*decimal.Big)(nil)), reflect.TypeOf(time.Time{}),
-	reflect.TypeOf([]string(nil)), reflect.TypeOf([]int(nil)), reflect.TypeOf([]interface{}(nil)), reflect.TypeOf(map[string]interface{}(nil)), reflect.TypeOf(map[string]int(nil)), reflect.TypeOf((*c11ReqCtx)(nil)),
+	reflect.TypeOf([]string(nil)), reflect.TypeOf([]int(nil)), reflect.TypeOf([]interface{}(nil)), reflect.TypeOf(map[string]interface{}(nil)), reflect.TypeOf(map[string]int(nil)), reflect.TypeOf((*c11ReqCtx)(nil)), reflect.TypeOf([]int8(nil)),
 }
 
 var tailKinds = []int{pkString, pkBool, pkInt, pkInt32, pkInt64, pkF64, pkIface, pkDec}
@@ -104,10 +106,14 @@ type argv struct {
 	expr  string
 	// goTyped: a Go slice of a concrete element type from the data ([]int, []string)
 	goTyped bool
+	neg     bool // negative infinity
 }
 
 var c11Map = map[string]interface{}{"k": 3.0, "j": -2.0}
 var c11Time = time.Date(2022, 5, 6, 7, 8, 9, 0, time.UTC)
+
+// the same instant in a zone that is not UTC (a time.Time then holds a pointer to its zone)
+var c11TimeLocal = c11Time.In(time.FixedZone("UTC+9", 9*3600))
 
 var argKinds = []argv{
 	{kind: "null", expr: "null"},
@@ -146,7 +152,9 @@ func init() {
 		argv{kind: "num", num: "9223372036854775808", expr: "(9223372036854775808)"},
 		argv{kind: "num", num: "-9223372036854775809", expr: "(-9223372036854775809)"},
 		argv{kind: "num", num: "1e30", expr: "(1e30)"},
-		argv{kind: "nonfinite", expr: "(1/0)"},
+		argv{kind: "inf", expr: "(1/0)"},
+		argv{kind: "inf", neg: true, expr: "(-1/0)"},
+		argv{kind: "inf", neg: true, expr: "(-(1/0))"},
 		argv{kind: "nonfinite", expr: "(0/0)"},
 		argv{kind: "num", num: "1.0000000596046447753906251", expr: "(1.0000000596046447753906251)"}, // just above the midpoint of two float32 values
 		argv{kind: "num", num: "16777217", expr: "(16777217)"},
@@ -154,6 +162,19 @@ func init() {
 		argv{kind: "arr", goTyped: true, expr: "rc.strs", elems: []argv{{kind: "str", str: "p"}, {kind: "str", str: "q"}}},
 		argv{kind: "null", expr: "np"}, // a typed nil pointer read by name
 		argv{kind: "ctxlike", expr: "rcx"},
+		argv{kind: "num", num: "1.9", expr: "true ? 1.9 : 2"}, // a conditional is one argument (the comma after it separates arguments)
+		argv{kind: "str", str: "x", expr: "false ? 1 : 'x'"},
+		argv{kind: "num", num: "-9223372036854775808", expr: "(-9223372036854775808)"},
+		argv{kind: "num", num: "-9223372036854775808.9", expr: "(-9223372036854775808.9)"},
+		argv{kind: "num", num: "9223372036854775807", expr: "(9223372036854775807)"},
+		argv{kind: "num", num: "-2147483648.5", expr: "(-2147483648.5)"},
+		argv{kind: "num", num: "-32768", expr: "(-32768)"},
+		argv{kind: "arr", goTyped: true, expr: "rc.wide", elems: []argv{{kind: "num", num: "300"}, {kind: "num", num: "1"}}},
+		argv{kind: "arr", expr: "[300, 1]", elems: []argv{{kind: "num", num: "300"}, {kind: "num", num: "1"}}},
+		argv{kind: "arr", goTyped: true, expr: "rc.i32s", elems: []argv{{kind: "num", num: "72"}, {kind: "num", num: "105"}}},
+		argv{kind: "arr", goTyped: true, expr: "rc.f64s", elems: []argv{{kind: "num", num: "1.5"}, {kind: "num", num: "-2.5"}}},
+		argv{kind: "arr", goTyped: true, expr: "rc.anys", elems: []argv{{kind: "num", num: "4"}, {kind: "num", num: "7.5"}, {kind: "num", num: "9007199254740993"}}},
+		argv{kind: "time", expr: "tml"},
 		// the same (non-cyclic) object more than once inside an argument
 		argv{kind: "arr", expr: "[mp, mp]", elems: []argv{{kind: "map"}, {kind: "map"}}},
 		argv{kind: "arr", expr: "($al = [1, 2], [$al, $al])", elems: []argv{{kind: "arr", elems: []argv{{kind: "num", num: "1"}, {kind: "num", num: "2"}}}, {kind: "arr", elems: []argv{{kind: "num", num: "1"}, {kind: "num", num: "2"}}}}},
@@ -176,6 +197,7 @@ type decWant struct{ s string }
 type numText struct{ s string }
 type identWant struct{ obj interface{} }
 type identPtr struct{ obj interface{} }
+type containsAll []string
 
 func truncInt(num string) int64 {
 	d, _ := ref.ParseDec(num)
@@ -190,7 +212,7 @@ func nearestF64(num string) float64 {
 // row gives the expectation for one argument converted to one parameter kind.
 func row(pk int, a argv) (int, interface{}) {
 	comp := a.kind == "arr" || a.kind == "map" || a.kind == "time"
-	if a.kind == "nonfinite" && !(pk >= pkInt && pk <= pkF64) {
+	if (a.kind == "nonfinite" || a.kind == "inf") && !(pk >= pkInt && pk <= pkF64) {
 		if pk == pkBool || pk == pkString || pk == pkIface || pk == pkDec {
 			return vU, nil
 		}
@@ -216,6 +238,13 @@ func row(pk int, a argv) (int, interface{}) {
 	}
 	switch pk {
 	case pkString:
+		if a.goTyped && len(a.elems) > 0 && a.elems[0].kind == "num" {
+			var parts []string
+			for _, e := range a.elems {
+				parts = append(parts, e.num)
+			}
+			return vD, containsAll(parts) // formatted, whatever the layout: every number is legible in it
+		}
 		switch a.kind {
 		case "null":
 			return vU, nil
@@ -239,6 +268,18 @@ func row(pk int, a argv) (int, interface{}) {
 		switch a.kind {
 		case "null", "bool":
 			return vU, nil
+		case "inf":
+			sign := 1
+			if a.neg {
+				sign = -1
+			}
+			switch pk {
+			case pkF32:
+				return vD, float32(math.Inf(sign))
+			case pkF64:
+				return vD, math.Inf(sign) // the nearest float64 to an infinity is that infinity
+			}
+			return vF, nil
 		case "nonfinite":
 			if pk == pkF32 || pk == pkF64 {
 				return vU, nil
@@ -310,12 +351,12 @@ func row(pk int, a argv) (int, interface{}) {
 			return vD, c11Time
 		}
 		return vF, nil
-	case pkSliceStr, pkSliceInt, pkSliceIface:
+	case pkSliceStr, pkSliceInt, pkSliceIface, pkSliceInt8:
 		switch a.kind {
 		case "null":
 			return vU, nil
 		case "arr":
-			ek := map[int]int{pkSliceStr: pkString, pkSliceInt: pkInt, pkSliceIface: pkIface}[pk]
+			ek := map[int]int{pkSliceStr: pkString, pkSliceInt: pkInt, pkSliceIface: pkIface, pkSliceInt8: pkInt8}[pk]
 			verdict := vD
 			w := make([]interface{}, len(a.elems))
 			for i, e := range a.elems {
@@ -365,6 +406,17 @@ func sameArg(got interface{}, want interface{}) bool {
 		d, ok := decOf(got)
 		wd, _ := ref.ParseDec(w.s)
 		return ok && d.Finite() && d.Cmp(wd) == 0
+	case containsAll:
+		gs, ok := got.(string)
+		if !ok {
+			return false
+		}
+		for _, part := range w {
+			if !strings.Contains(gs, part) {
+				return false
+			}
+		}
+		return true
 	case identPtr:
 		return got != nil && reflect.TypeOf(got).Kind() == reflect.Ptr && reflect.ValueOf(got).Pointer() == reflect.ValueOf(w.obj).Pointer()
 	case identWant:
@@ -516,6 +568,9 @@ func judgeCall(c CallCase) *eng.Fail {
 		args[i] = argKinds[a]
 		exprs[i] = args[i].expr
 	}
+	if c.Spread && len(exprs) > 0 && strings.Contains(exprs[len(exprs)-1], " ? ") {
+		exprs[len(exprs)-1] = "(" + exprs[len(exprs)-1] + ")" // '2...' would lex as the number '2.' followed by '..'
+	}
 	src := "[host(" + strings.Join(exprs, ", ")
 	if c.Spread {
 		src += "..."
@@ -561,8 +616,8 @@ func judgeCall(c CallCase) *eng.Fail {
 			verdict = vU
 		} else if last := args[len(args)-1]; last.kind != "arr" {
 			verdict = vF // spread of a non-array
-		} else if last.goTyped {
-			verdict = vU // spreading a Go-typed slice from the data: element conversion is not fixed by the statement
+		} else if last.goTyped && !(len(last.elems) > 0 && last.elems[0].kind == "num" && c.Tail != pkIface && c.Tail != pkBool && len(args)-1 == nf) {
+			verdict = vU // spreading a Go-typed slice of non-numbers (or over interface{}): element conversion is not fixed by the statement
 		} else if len(args)-1 != nf {
 			verdict = vF // the explicit arguments must fill exactly the fixed parameters; the array only feeds the tail
 		} else {
@@ -580,7 +635,8 @@ func judgeCall(c CallCase) *eng.Fail {
 	}
 	invocations = invocations[:0]
 	data := map[string]interface{}{"host": makeHost(c.Fixed, c.Tail, c.Ctx, c.Ret), "mp": c11Map, "tm": c11Time,
-		"rc": map[string]interface{}{"nilsl": []string(nil), "nilany": []interface{}(nil), "ints": []int{65, 66}, "strs": []string{"p", "q"}, "twice": []map[string]interface{}{c11Map, c11Map}}, "np": (*int)(nil), "rcx": c11RC}
+		"rc": map[string]interface{}{"nilsl": []string(nil), "nilany": []interface{}(nil), "ints": []int{65, 66}, "strs": []string{"p", "q"}, "twice": []map[string]interface{}{c11Map, c11Map},
+			"wide": []int{300, 1}, "i32s": []int32{72, 105}, "f64s": []float64{1.5, -2.5}, "anys": []interface{}{4, 7.5, int64(9007199254740993)}}, "np": (*int)(nil), "rcx": c11RC, "tml": c11TimeLocal}
 	r := formula.NewRunner()
 	r.SetThis(data)
 	o := safeResolve(r, c11Ctx, p.Expression)
